@@ -678,12 +678,7 @@ func (c Case) sig() string {
 // table when the defects are fixed; open entries of known_findings.json
 // (r.OpenClass) add to it.
 var knownOpen = map[string]bool{
-	"wrong-value/fields-dropped-before-call":           true,
-	"wrong-value/unknown-method-on-pointer":            true,
-	"clean-failure/index-then-method":                  true,
-	"clean-failure/three-indexed-levels-similar-names": true,
-	"clean-failure/call-call-index":                    true,
-	"clean-failure/for-over-chained-calls":             true,
+	// (empty: the six classes found when this check was first run were fixed in /repo)
 }
 
 // strictMode: no class is tolerated (used only while the witnesses below are
